@@ -5,7 +5,7 @@
 HERE=$(cd "$(dirname "$0")/.." && pwd)
 . "$HERE/scripts/goenv.sh"
 REPO=${REPO:-/repo}; prop=$1; tier=$2; out=$3
-if [ "$tier" = thorough ]; then export STANDIN_BM_PAT=5 STANDIN_BM_TEXT=6; else export STANDIN_BM_PAT=4 STANDIN_BM_TEXT=5; fi
+if [ "$tier" = thorough ]; then export STANDIN_BM_PAT=4 STANDIN_BM_TEXT=6; else export STANDIN_BM_PAT=4 STANDIN_BM_TEXT=5; fi
 tmp=$(mktemp -d); trap 'rm -rf "$tmp"' EXIT
 printf '{"Replace":{"%s/syntax/zz_verif_standin_test.go":"%s/standins/bm_standin_test.go"}}' "$REPO" "$HERE" > "$tmp/ov.json"
 t0=$(date +%s.%N)
@@ -34,7 +34,7 @@ python3 - "$out" "$cases" "$secs" "$status" <<'PY'
 import json,sys,os
 out,cases,secs,status=sys.argv[1:5]
 json.dump({"bounded":[{"function":"syntax.(*BmPrefix).Scan (with newBmPrefix's tables)","labelled":"bounded - not counted as proved",
- "bound":"patterns of length 1..%s and texts of length 0..%s over {a,b,A,U+00E9,U+0100}, every start index, both directions, both case modes"%(os.environ.get("STANDIN_BM_PAT"),os.environ.get("STANDIN_BM_TEXT")),
+ "bound":"patterns of length 1..%s and texts of length 0..%s over {a,b,A,U+00E9,U+0100,U+1F600}, every start index, both directions, both case modes"%(os.environ.get("STANDIN_BM_PAT"),os.environ.get("STANDIN_BM_TEXT")),
  "cases":int(cases),"seconds":float(secs),"result":status,"checks":"Scan == naive first occurrence (the trusted contract of Scan)"}]},open(out,"w"))
 PY
 [ "$status" = held ] && exit 0
